@@ -1,4 +1,5 @@
 import Fpdec.Kernels.Cmp
+import Fpdec.Kernels.Ratio
 import Fpdec.Lemmas.RatioL
 import Fpdec.Props.C09_Sites
 
@@ -53,5 +54,21 @@ kernel that changes its translation breaks them. -/
 /-- `impl PartialEq<Decimal> for Decimal` / `impl PartialOrd<Decimal> for Decimal`, as translated on this run -/
 theorem kernel_decimal_eq (prof : Profile) (x y : Dec) (hp : x.nfrac < 256) (hq : y.nfrac < 256) :
     Gen.K.decimal_eq prof x y = .ok (decimalEq x y) := Kernels.decimal_eq_eq prof x y hp hq
+
+/-- `gcd_special` (Stein's loop on `i128`) and `Decimal::as_integer_ratio` / `numerator` / `denominator`, as translated on this run;
+    the hypothesis excludes only the coefficient `i128::MIN`, which is outside the property's domain -/
+theorem kernel_gcd_special (prof : Profile) (numer : Int) (e : Nat) (hn : I128_MIN < numer ∧ numer ≤ I128_MAX) :
+    Gen.K.gcd_special prof numer e = gcdSpecial prof numer e := Kernels.gcd_special_eq prof numer e hn
+theorem kernel_decimal_as_integer_ratio (prof : Profile) (d : Dec) (hc : I128_MIN < d.coeff ∧ d.coeff ≤ I128_MAX) :
+    Gen.K.decimal_as_integer_ratio prof d = asIntegerRatio prof d := Kernels.decimal_as_integer_ratio_eq prof d hc
+theorem kernel_decimal_numerator (prof : Profile) (d : Dec) (hc : I128_MIN < d.coeff ∧ d.coeff ≤ I128_MAX) :
+    Gen.K.decimal_numerator prof d = numerator prof d := Kernels.decimal_numerator_eq prof d hc
+theorem kernel_decimal_denominator (prof : Profile) (d : Dec) (hc : I128_MIN < d.coeff ∧ d.coeff ≤ I128_MAX) :
+    Gen.K.decimal_denominator prof d = denominator prof d := Kernels.decimal_denominator_eq prof d hc
+/-- end to end: the translated `as_integer_ratio` returns the reduced fraction on the property's whole domain -/
+theorem kernel_as_integer_ratio_spec (prof : Profile) (d : Dec) (hd : Dom d) :
+    Gen.K.decimal_as_integer_ratio prof d = .ok (Spec.ratio d.coeff d.nfrac) := by
+  rw [Kernels.decimal_as_integer_ratio_eq prof d ⟨hd.1, hd.2.1⟩]
+  exact (as_integer_ratio_spec prof d hd).1
 
 end Fpdec.Props.C09
